@@ -470,6 +470,49 @@ def multi_cycle_stream(ctx, plans, table, n):
         plans.append(pl)
 
 
+def terminal_after_search_stream(ctx, plans, table, n):
+    """a mated / stalemated position searched after an ordinary search on the same engine (state carried over: previous PV)"""
+    terms = wf_corpus('terminal_fens.txt')
+    pos = pick_positions(ctx, n)
+    for i, p in enumerate(pos):
+        t = terms[i % len(terms)] if terms else None
+        if t is None:
+            break
+        pl = Plan('terminal-after-search')
+        if ctx.rng.chance(1, 3):
+            pl.simple('new')
+        pl.pos(p, [], table.add(p, []))
+        pl.go(['depth', ctx.rng.pick(['2', '3'])])
+        if ctx.rng.chance(1, 3):
+            pl.simple('new')
+        q = t if ctx.rng.chance(1, 2) else flip_fen(t)
+        pl.pos(q, [], table.add(q, []))
+        pl.go(['depth', ctx.rng.pick(['1', '2', '3'])])
+        plans.append(pl)
+
+
+def promotion_stream(ctx, plans, table, n):
+    """every promotion move (all four pieces) forced with searchmoves: the announced move must carry its promotion letter"""
+    pos = positions(ctx, max(n * 3, 600))
+    feats = core.run_model(['spec:legal %s' % p for p in pos])
+    done = 0
+    for p, legal in zip(pos, feats):
+        promos = [m for m in legal.split(',') if len(m) == 5]
+        if not promos or int(p.split('_')[4]) > 3900:
+            continue
+        idx = table.add(p, [])
+        pl = Plan('promotion-searchmoves')
+        pl.pos(p, [], idx)
+        for m in sorted(set(ctx.rng.pick(promos) for _ in range(3))):
+            pl.go(['depth', '1', 'searchmoves', m])
+            pl.meta[-1]['searchmoves'] = [m]
+        pl.go(['depth', '2'])
+        plans.append(pl)
+        done += 1
+        if done >= n:
+            break
+
+
 def flip_stream(ctx, plans, table, n):
     pos = pick_positions(ctx, n)
     for p in pos:
@@ -740,15 +783,19 @@ def register(PROPS):
     c07c, c07p = make_prop([lambda c, pl, t: limits_stream(c, pl, t, c.scale(120, 2500)),
                             lambda c, pl, t: interrupt_stream(c, pl, t, c.scale(3, 40), c.scale(30, 120)),
                             lambda c, pl, t: repetition_stream(c, pl, t, c.scale(10, 200)),
-                            lambda c, pl, t: multi_cycle_stream(c, pl, t, c.scale(25, 600))],
+                            lambda c, pl, t: multi_cycle_stream(c, pl, t, c.scale(25, 600)),
+                            lambda c, pl, t: terminal_after_search_stream(c, pl, t, c.scale(20, 400)),
+                            lambda c, pl, t: promotion_stream(c, pl, t, c.scale(20, 400))],
                            binary_sessions=lambda c: c.scale(12, 300))
-    PROPS['C07'] = dict(modules=['Inkayaku.Props.C07'], theorems=['Inkayaku.C07.' + n for n in 'go_exactly_one_bestmove bestmove_legal every_iteration_legal root_move_from_buffer nolegal_null depth1_not_interrupted depth1_completes_partial'.split()] + ['Inkayaku.Search.boardLaws'], cases=c07c, post=c07p, anchors=ENGINE_ANCHORS)
+    PROPS['C07'] = dict(modules=['Inkayaku.Props.C07', 'Inkayaku.Props.C07Final'], theorems=['Inkayaku.C07.' + n for n in 'go_exactly_one_bestmove bestmove_legal every_iteration_legal root_move_from_buffer nolegal_null depth1_not_interrupted depth1_completes go_answers_legal_move genPseudo_length_lt'.split()] + ['Inkayaku.Search.boardLaws'], cases=c07c, post=c07p, anchors=ENGINE_ANCHORS)
     c08c, c08p = make_prop([lambda c, pl, t: depth_stream(c, pl, t, c.scale(150, 4000)), mate_stream,
                             lambda c, pl, t: multi_cycle_stream(c, pl, t, c.scale(10, 300))], minimax=True)
     PROPS['C08'] = dict(modules=['Inkayaku.Props.C08'], theorems=['Inkayaku.C08.' + n for n in 'quiescence_clamp quiescence_ok ab_ok root_exact order_irrelevant best_move_optimal ab_tt_ok root_exact_tt engine_order_is_permutation search_eq_mm specValue_eq_mm specValue_order_irrelevant specBestMoves_eq_optimal search_best_move_optimal mate_found mate_real'.split()], cases=c08c, post=c08p, anchors=ENGINE_ANCHORS)
     c09c, c09p = make_prop([lambda c, pl, t: interrupt_stream(c, pl, t, c.scale(24, 300), c.scale(90, 250))])
     PROPS['C09'] = dict(modules=['Inkayaku.Props.C09'], theorems=['Inkayaku.C09.' + n for n in 'quiescence_board negamax_board deepen_board go_preserves_board go_preserves_inv session_preserves_board next_go_searches_same_position go_one_bestmove bestmove_from_last_completed_iteration bestmove_none_iff_no_completed_iteration'.split()] + ['Inkayaku.Search.boardLaws', 'Inkayaku.Search.unmake_make_of_generated', 'Inkayaku.Search.make_wf', 'Inkayaku.BoardCongr.make_congr', 'Inkayaku.BoardCongr.genPseudo_congr'], cases=c09c, post=c09p, anchors=ENGINE_ANCHORS)
     c16c, c16p = make_prop([lambda c, pl, t: multi_cycle_stream(c, pl, t, c.scale(60, 1500)),
+                            lambda c, pl, t: terminal_after_search_stream(c, pl, t, c.scale(30, 600)),
+                            lambda c, pl, t: promotion_stream(c, pl, t, c.scale(30, 600)),
                             lambda c, pl, t: limits_stream(c, pl, t, c.scale(40, 800))],
                            binary_sessions=lambda c: c.scale(25, 600))
     PROPS['C16'] = dict(modules=['Inkayaku.Props.C16'], theorems=['Inkayaku.C16.' + n for n in 'info_depth_mono info_nodes_mono info_time_mono info_time_is_clock bestmove_is_pv0_ponder_is_pv1 null_bestmove_no_ponder'.split()], cases=c16c, post=c16p, anchors=ENGINE_ANCHORS)
